@@ -234,10 +234,10 @@ def rule_r5(ctx: Ctx) -> None:
 
 
 def run(ctx: Ctx) -> None:
-    rule_r1_r2(ctx)
-    rule_r3(ctx)
-    rule_r4(ctx)
-    rule_r5(ctx)
+    ctx.attempt(rule_r1_r2, ctx)
+    ctx.attempt(rule_r3, ctx)
+    ctx.attempt(rule_r4, ctx)
+    ctx.attempt(rule_r5, ctx)
     from . import c01
 
     # immutability also fails through aliases: a memoised residue set handed out by reference and modified by the caller
